@@ -39,6 +39,10 @@ var c07Sets = [][]c07Route{
 	{{"GET", "/a/?z", nil}, {"*", "/a/z", []string{"X-K", "^v$"}}, {"POST", "/{m: **}", nil}},
 	// the constrained header named in a non-canonical spelling
 	{{"GET", "/a", []string{"x-k", "^v$"}}, {"GET", "/{x}", nil}},
+	// expressions with quoting (\Q..\E): self-contained, and one whose \Q is not closed inside its own
+	// expression (if such a route is accepted, serving it must still not panic)
+	{{"GET", `/{x: /(a)\Qz\E/}{y: /\Qb\E/}`, nil}, {"GET", "/{p}", nil}},
+	{{"GET", `/{x: /(a)\Q/}{y: /\Qb\E/}`, nil}, {"GET", "/{p}", nil}},
 	// a larger mixed table (many siblings of every kind under two prefixes)
 	{{"GET", "/", nil}, {"GET", "/a", nil}, {"GET", "/a/", nil}, {"GET", "/a/b", nil}, {"GET", "/a/{x}", nil}, {"GET", "/a/{r: /[a2]+/}/z", nil}, {"GET", "/a/{m: **, capture: 3}/z", nil},
 		{"GET", "/a/c/?d", nil}, {"GET", "/z/{p}/{q}", nil}, {"GET", "/z/{p}/{q}/{r: /z+/}", nil}, {"GET", "/z/{m: **}", nil}, {"GET", "/{x}/z", nil}, {"GET", "/{s: /[.?]+/}", nil},
@@ -265,6 +269,7 @@ func c07Paths(thorough bool) []string {
 		}
 	}
 	out = append(out, "/A", "/A/b", "/a/B", "/A/", "/Z/a") // matching is case-sensitive
+	out = append(out, `/a)(\Qb`, "/azb", "/ab", "/a)(b", `/az\Eb`, `/a\Qz\Eb`) // texts around the quoted expressions
 	out = append(out, "/"+strings.Repeat("a/", 32*1024), strings.Repeat("/", 70000), "/a/"+strings.Repeat("z", 65536))
 	return out
 }
@@ -302,6 +307,15 @@ func c07Run(r *core.Run) {
 		m := ref.NewMatcher()
 		for ji := w; ji < len(jobs); ji += nw {
 			j := jobs[ji]
+			// a set whose registration is refused (registration panics) is C08's business: counted, skipped
+			if refused := func() (pv interface{}) {
+				defer func() { pv = recover() }()
+				c07Build(c07Sets[j.si], j.userNF, j.mw)
+				return nil
+			}(); refused != nil {
+				l.Extra["route_sets_refused_at_registration(C08)"]++
+				continue
+			}
 			world := c07Build(c07Sets[j.si], j.userNF, j.mw)
 			twins := []*c07World{c07Build(c07Sets[j.si], j.userNF, j.mw), c07Build(c07Sets[j.si], j.userNF, j.mw), c07BuildL(c07Sets[j.si], j.userNF, j.mw, true)}
 			l.States++
